@@ -38,6 +38,8 @@ CONFIGS = [f"{t}{p}" for t in ("typing.direct", "typing.root", "typing.310") for
 def plan(tier, seed):
     shards = [{"item": {"kind": "matrix"}, "seed": seed, "n": 25 if tier == "quick" else 300},
               {"item": {"kind": "features"}, "seed": seed, "n": 10}]
+    for nm in corpus.extra_names():
+        shards.append({"item": {"kind": "extra", "name": nm}, "seed": seed, "n": 10, "each_first": True})
     for i in range(8 if tier == "quick" else 120):
         shards.append({"item": {"kind": "gen", "seed": seed * 100003 + 9000 + i,
                                 "opts": {"names": "hostile" if i % 4 == 3 else "keywords", "services": True}},
@@ -142,6 +144,11 @@ def run_shard(shard) -> Result:
                               f"{name} [{cfg}]: {e.detail[-900:]}", w)
                 b.cleanup()
                 continue
+            if shard.get("each_first"):
+                for pkg, err in b.import_each_first():
+                    res.violation("import", [cfg_sig, "generated-package-does-not-import", "when-imported-first:" + _exc(err)],
+                                  f"{name} [{cfg}]: package {pkg or '(root)'} imported first in a fresh interpreter: {err[-700:]}", w)
+                res.counters["packages_imported_first"] += len(b.user_packages())
             builds[cfg] = b
         res.counters["programs"] += 1
         res.evaluations += 1
